@@ -739,6 +739,16 @@ func runReplicas(r *Run, prop string) {
 	oldChunk := kv.MaxSnapshotChunkSize
 	kv.MaxSnapshotChunkSize = chunk
 	defer func() { kv.MaxSnapshotChunkSize = oldChunk }()
+	if sg := NewRng(r.Seed, "c06-clock-skew"); sg.Chance(50) {
+		// the leaders of different terms stamp entries from clocks that disagree by up to two seconds: the
+		// timestamps of one log can step backwards at a leader change
+		server.SimEntryTimestamp = func(_ string, _ int64, term int64, now uint64) uint64 {
+			return uint64(int64(now) + int64(H(r.Seed, "term-clock", term)%4001) - 2000)
+		}
+		defer func() { server.SimEntryTimestamp = nil }()
+		r.Knobs["leader_clock_skew"] = "±2s per term"
+		r.Count("runs_with_leader_clock_skew", 1)
+	}
 	c := &c06{r: r, names: []string{"n1", "n2", "n3"}, dirSeq: map[string]int{}, started: map[string]bool{"n1": true}, attached: map[string]bool{}, snapshotted: map[string]bool{}, cutEmpty: map[string]bool{},
 		prop: prop, strict: c07, fsByDir: map[string]*vfs.MemFS{}}
 	if c.strict {
